@@ -15,6 +15,7 @@ env = `.` or `k:v;k:v;…` (hex fields).  Answers: `ok <hex>` | `err:<class>` | 
 import CaddyModel.C18.Model
 import CaddyModel.C18.Http
 import CaddyModel.C18.Rewrite
+import CaddyModel.C18.ConsDriver
 
 namespace CaddyModel.C18
 
@@ -102,6 +103,7 @@ def handle : List String → String
     | _, _, _, _ => "bad-op"
   | ["cost", mode, _, _] => if costModes.contains mode then "cost" else "bad-op"
   | ["costf", mode, _, _, _, _] => if costModes.contains mode then "cost" else "bad-op"
+  | "httpmap" :: rest => handleMap rest
   | ["zoo", _, _, _] => "zoo"      -- oracle-only stream (real provisioned server); nothing to model
   | _ => "bad-op"
 
